@@ -108,6 +108,21 @@ class Gen14:
         self.uid += 1
         return {"uid": self.uid, "re": re_, "pr": pr_, "tmin": tmin, "eqk": eqk}
 
+    def variant(self, r):
+        """the same species with another multiplicity (`H + H -> H2` next to `H -> H2`): a different reaction"""
+        rng = self.rng
+        re_, pr_ = list(r["re"]), list(r["pr"])
+        side = re_ if (rng.random() < 0.6 or not pr_) else pr_
+        dup = [x for x in side if sum(1 for y in side if canon(y) == canon(x)) > 1]
+        if dup and (rng.random() < 0.5 or len(side) >= 3):
+            side.remove(dup[0])
+        elif len(side) < 3:
+            side.append(rng.choice(side))
+        key = (tuple(sorted(map(canon, re_))), tuple(sorted(map(canon, pr_))), r["tmin"])
+        eqk = self.classes.setdefault(key, len(self.classes))
+        self.uid += 1
+        return {"uid": self.uid, "re": re_, "pr": pr_, "tmin": r["tmin"], "eqk": eqk}
+
     def clone(self, r):
         self.uid += 1
         rng = self.rng
@@ -126,6 +141,8 @@ class Gen14:
         if k == "add":
             if everything and rng.random() < 0.3:
                 return (k, self.clone(rng.choice(everything)))
+            if everything and rng.random() < 0.25:
+                return (k, self.variant(rng.choice(everything)))
             return (k, self.reac())
         if k == "addMany":
             return (k, [self.reac() for _ in range(rng.randint(0, 4))])
@@ -455,6 +472,8 @@ def gen_dup_list(rng, tier):
                 b["tmin"] = rng.choice([-1.0, 10.0, 100.0])
             elif v < 0.3:
                 b["type"] = rng.choice(ALL_TYPES + ([999] if use_unknown else []))
+            elif v < 0.42 and len(b["re"]) < 3:
+                b["re"] = b["re"] + [rng.choice(b["re"])]      # the same species with another multiplicity: another reaction
             out.append(b)
         else:
             re_ = [rng.choice(names) for _ in range(rng.choice([1, 2, 2, 3]))]
